@@ -36,6 +36,7 @@ func (b *Bus) Send(ctx context.Context, event any) (ok bool) {
 	}
 
 	if needGc {
+		verifhook.Yield("Bus.Send:before-collect")
 		b.collect()
 	}
 
